@@ -240,10 +240,69 @@ def h_all(ctx, n, end):
         ctx.check("each discovered account is requested with its own type and id", ctx.all(conds))
 
 
-HARNESSES = dict(stmt=h_stmt, stmt_model=h_stmt_model, all=h_all)
+def parse_cli(argv):
+    """the real argument parser on a concrete command line (argparse itself runs natively)"""
+    return ofxget.make_argparser().parse_args(argv)
+
+
+rt.NATIVE_FUNCS.add(parse_cli)
+ACCT_OPTS = [("-C", "checking", "1001"), ("-S", "savings", "2002"), ("-M", "moneymrkt", "5005"), ("-L", "creditline", "6006"),
+             ("-c", "creditcard", "3003"), ("-i", "investment", "4004")]
+
+
+def h_cli(ctx, end, accts=None):
+    """the command line itself: real argument parser -> merge_config (empty user configuration) -> request_stmt / request_stmtend"""
+    argv = ["stmtend" if end else "stmt", "--dryrun", "--url", "https://x.example/ofx", "-u", "porky", "--bankid", "111"] + ([] if end else ["--brokerid", "br.example"])
+    present = {}
+    for opt, name, acct in ACCT_OPTS:
+        if end and name == "investment":
+            continue
+        present[name] = ctx.bool("has_" + name) if (accts is None or name in accts) else False
+        if present[name]:
+            argv += [opt, acct]
+    dates = {}
+    for opt, name, text, inst in (("-s", "dtstart", "20070101", datetime.datetime(2007, 1, 1, tzinfo=UTC)), ("-e", "dtend", "20071231", datetime.datetime(2007, 12, 31, tzinfo=UTC)),
+                                  ("-a", "dtasof", "20071130", datetime.datetime(2007, 11, 30, tzinfo=UTC))):
+        if end and name == "dtasof":
+            continue
+        dates[name] = inst if ctx.bool("has_" + name) else None
+        if dates[name] is not None:
+            argv += [opt, text]
+    flags = dict(inctran=True, incpos=True, incbal=True, incoo=False)
+    if not end:
+        for opt, name, val in (("--no-transactions", "inctran", False), ("--no-positions", "incpos", False), ("--no-balances", "incbal", False), ("--open-orders", "incoo", True)):
+            if ctx.bool("flag_" + name):
+                argv.append(opt)
+                flags[name] = val
+    ns = parse_cli(argv)
+    args = ofxget.merge_config(ns, ofxget.UserConfig())
+    log = run_command(ctx, ofxget.request_stmtend if end else ofxget.request_stmt, args)
+    ctx.check("exactly one statement request call is made", len(log) == 1 and log[0][0] == "statements")
+    if len(log) != 1:
+        return
+    reqs = log[0][2]
+    want = [(name, acct) for _, name, acct in ACCT_OPTS if present.get(name)]
+    ctx.check("one request per configured account - none missing, duplicated or extra", len(reqs) == len(want))
+    if len(reqs) != len(want):
+        return
+    for r, (name, acct) in zip(reqs, want):
+        conds = [r.acctid == acct, r.dtstart == dates["dtstart"], r.dtend == dates["dtend"]]
+        if name in BANKTYPES:
+            conds += [type(r) is (StmtEndRq if end else StmtRq), r.accttype == name.upper()]
+        elif name == "creditcard":
+            conds += [type(r) is (CcStmtEndRq if end else CcStmtRq)]
+        else:
+            conds += [type(r) is InvStmtRq, r.incoo == flags["incoo"], r.incpos == flags["incpos"], r.incbal == flags["incbal"], r.dtasof == dates["dtasof"]]
+        if not end:
+            conds.append(r.inctran == flags["inctran"])
+        ctx.check("each request has its account's type, id, the given dates and include flags", ctx.all(conds))
+
+
+HARNESSES = dict(stmt=h_stmt, stmt_model=h_stmt_model, all=h_all, cli=h_cli)
 
 META = dict(
     bounds=dict(configured="0..1 (quick) / 0..2 (thorough) symbolic account ids per account type (6 types), symbolic presence and digits of the three dates, symbolic include flags",
+                command_line="real argument parser + merge_config with an empty user configuration: symbolic presence of each account option, each date option and each include flag (--no-transactions --no-positions --no-balances --open-orders)",
                 discovered="ACCTINFORS with 1-2 (quick) / 1-3 (thorough) entries of symbolic kind, account type, id and SVCSTATUS"),
     models=["instrumented request_stmt/request_stmtend/_request_acctinfo/_merge_acctinfo/extract_acctinfos/parse_*acctinfos/_acctIsActive/convert_datetime/get_passwd",
             "stubs: init_client -> recording client; OFXTree -> prepared response model (real model instances with symbolic fields)", "collections.ChainMap, itertools.groupby (native)"],
@@ -273,5 +332,6 @@ def instances(tier, seed):
                 mk(f"stmt[end={end},{'+'.join(sorted(st))},{sd}]", "stmt", dict(nids=1, end=end, sym_types=st, sym_date=sd))
         for n in ((1, 2) if not full else (1, 2, 3)):
             mk(f"all[{n},end={end}]", "all", dict(n=n, end=end))
+        mk(f"cli[end={end}]", "cli", dict(end=end, accts=None if full else ["checking", "creditline", "creditcard", "investment"]))
         mk(f"stmt_model[end={end}]", "stmt_model", dict(end=end, nbank=2 if not full else 3))
     return out
